@@ -77,7 +77,9 @@ func c13ParserOrder(c *run.Check) {
 		}
 		keys, m, ok := ambiguousLists(g)
 		if !ok {
-			c.Violation(map[string]string{"expr": text}, "HARNESS: cannot reach the parse forest of the compiled query by reflection (its layout changed)")
+			// not a property violation: the exploration cannot be done on this tree
+			c.Set("parser_order_exploration", "unavailable: cannot reach the parse forest of the compiled query by reflection (its layout changed); only repeated builds are compared")
+			c.Exhaustive = false
 			return
 		}
 		if len(keys) == 0 {
